@@ -160,8 +160,24 @@ pub fn judge(code: &V, env: &V, rich: Option<Rc<SExp>>, symbols: &HashMap<String
     let mut a = clvmr::Allocator::new();
     if let (Ok(ph), Ok(eh)) = (hex_to_modern_sexp(&mut a, symbols, sut::loc(), &hx), hex_to_modern_sexp(&mut a, &HashMap::new(), sut::loc(), &hex(&env.ser()))) {
         if let Some(rows_h) = trace(ph, eh, vec![]) {
-            let a1: Vec<Row> = rows.iter().map(strip_locations).collect();
-            let a2: Vec<Row> = rows_h.iter().map(strip_locations).collect();
+            // a value printed as a bare word the reader does not take back (the source form prints
+            // the atom 0x23 as #) cannot be compared through its text: such fields are left out on
+            // both sides (counted), everything else must agree
+            let mut a1: Vec<Row> = rows.iter().map(strip_locations).collect();
+            let mut a2: Vec<Row> = rows_h.iter().map(strip_locations).collect();
+            if a1.len() == a2.len() {
+                for (x, y) in a1.iter_mut().zip(a2.iter_mut()) {
+                    let keys: Vec<String> = x.keys().filter(|k| !matches!(k.as_str(), "Row" | "Argument-Refs" | "Failure")).cloned().collect();
+                    for k in keys {
+                        let unreadable = |r: &Row| r.get(&k).map(|t| read_val(t).is_none()).unwrap_or(false);
+                        if unreadable(x) || unreadable(y) {
+                            x.remove(&k);
+                            y.remove(&k);
+                            st.label("hex-vs-source:field-not-re-readable(skipped)");
+                        }
+                    }
+                }
+            }
             if a1 != a2 {
                 let i = a1.iter().zip(a2.iter()).position(|(x, y)| x != y).unwrap_or(a1.len().min(a2.len()));
                 return Err(Viol::new(
